@@ -2,6 +2,8 @@ package c02
 
 import (
 	"bytes"
+	"encoding/xml"
+	"io"
 	"strings"
 )
 
@@ -106,20 +108,54 @@ func RefDecode(raw []byte) (payload []byte, ok bool, why string) {
 	}
 }
 
-// errorOpeners are the element spellings that make a payload "carry an rpc-error".
+// errorOpeners are the three exact spellings used for payloads that are not well-formed XML.
 var errorOpeners = []string{"<rpc-error>", "<rpc-errors>", "<nc:rpc-error>"}
 
 // errorMarkers is every byte string whose presence the classification may legitimately key on.
 var errorMarkers = []string{"<rpc-error>", "<rpc-errors>", "<nc:rpc-error>", "</rpc-error>", "</rpc-errors>", "</nc:rpc-error>"}
 
-// CarriesError reports whether the payload carries an rpc-error (any of the three spellings).
+// CarriesError reports whether the payload carries an rpc-error. For a payload that is well-formed
+// XML a real tokenizer (encoding/xml) decides: some element's local name is rpc-error (any prefix,
+// any attributes, any white space in the tags; text, CDATA and comments do not count). The PRNG text
+// payloads are not well-formed; for them the three exact opening spellings decide.
 func CarriesError(p []byte) bool {
+	if n, wf := xmlErrorElements(p); wf {
+		return n > 0
+	}
 	for _, m := range errorOpeners {
 		if bytes.Contains(p, []byte(m)) {
 			return true
 		}
 	}
 	return false
+}
+
+// xmlErrorElements tokenizes p; wellFormed is false if p is not a well-formed XML document.
+func xmlErrorElements(p []byte) (n int, wellFormed bool) {
+	d := xml.NewDecoder(bytes.NewReader(p))
+	d.Strict = true
+	roots, depth := 0, 0
+	for {
+		tok, err := d.Token()
+		if err == io.EOF {
+			return n, roots == 1 && depth == 0
+		}
+		if err != nil {
+			return 0, false
+		}
+		switch t := tok.(type) {
+		case xml.StartElement:
+			if depth == 0 {
+				roots++
+			}
+			depth++
+			if t.Name.Local == "rpc-error" || t.Name.Local == "rpc-errors" {
+				n++
+			}
+		case xml.EndElement:
+			depth--
+		}
+	}
 }
 
 // anyMarkerIn reports whether any opening or closing marker occurs contiguously in b.
